@@ -327,9 +327,8 @@ def run(chk):
         ndis = 0
         for (case, res), m in zip(cases, mres):
             verdict = {0: "ok", 1: "usererr", 2: "crash"}[m[0]]
+            # C19 is about the verdict only (accepted / diagnostic / crash); which runs an accepted document yields is C01's
             same = verdict == res[0]
-            if same and verdict == "ok":
-                same = set(G.freeze(k) for k in m[1]) == res[1]
             if not same:
                 ndis += 1
                 if ndis <= 3:
